@@ -7,3 +7,12 @@ pub fn run(a: &Args) {
     let out = rt.block_on(wp::enqueue_once(a.str("mode"), a.usize("limit"), a.usize("qlen"), a.u64("busy") == 1, a.u64("dead") == 1));
     println!("out={}", out.replace('=', ":"));
 }
+
+/// worker_books queue=<keys> curr=<keys> op=<..> dead=0|1
+pub fn books(a: &Args) {
+    let rt = tokio::runtime::Builder::new_current_thread().enable_time().build().unwrap();
+    let q: Vec<u64> = a.list_u128("queue").iter().map(|x| *x as u64).collect();
+    let c: Vec<u64> = a.list_u128("curr").iter().map(|x| *x as u64).collect();
+    let out = rt.block_on(wp::books_once(&q, &c, a.str("op"), a.u64("dead") == 1));
+    println!("out={}", out.replace('=', ":"));
+}
